@@ -18,12 +18,12 @@ structure Protocol (f : Fmt) (t : Trace) (c y : Nat) : Prop where
   hH : f.headerSize ≤ kSector
   hS : f.sanity.size < f.headerSize
   hne : prefixIs Img.empty f.sanity = false
-  hlen : f.headerSize ≤ (vol t c).len
+  hlen : f.headerSize ≤ (vol t (y + 1)).len
   hcommit : (t.getD c .close).inHeader f.headerSize = true
   hafter : noWriteBetween t c t.length = true
   hy : y < c
   hsync : (t.getD y .close).fullSync (vol t (y + 1)).len = true
-  hbetween : noWriteBetween t y c = true
+  hbetween : onlyHeaderBetween t y c f.headerSize = true
 
 theorem conforms_unpack (f : Fmt) (t : Trace) (h : conforms f t = true) : ∃ c y, Protocol f t c y := by
   unfold conforms at h
@@ -32,7 +32,7 @@ theorem conforms_unpack (f : Fmt) (t : Trace) (h : conforms f t = true) : ∃ c 
   | some c =>
     rw [hc] at h
     simp only [Bool.and_eq_true, decide_eq_true_eq, List.any_eq_true, List.mem_range, Bool.not_eq_true'] at h
-    obtain ⟨⟨⟨⟨⟨⟨⟨hH, hS⟩, hne⟩, hlen⟩, hcm⟩, haf⟩, ⟨y, hy, hsy, hbt⟩⟩, _⟩ := h
+    obtain ⟨⟨⟨⟨⟨hH, hS⟩, hne⟩, hcm⟩, haf⟩, ⟨y, hy, ⟨⟨hsy, hlen⟩, hbt⟩, _⟩⟩ := h
     refine ⟨c, y, ⟨hc, hH, hS, hne, hlen, ?_, haf, hy, hsy, hbt⟩⟩
     cases hg : t.getD c .close <;> rw [hg] at hcm <;> simp [Ev.inHeader] at hcm ⊢ <;> exact hcm
 
@@ -72,16 +72,10 @@ theorem Protocol.after_sync : ∀ k, y + 1 ≤ k →
     · subst hjc
       have : t.getD j .close = e := by rw [List.getD_eq_getElem?_getD, he]; rfl
       rw [← this]; exact P.hcommit
-    · have hnw : e.isWrite = false := by
-        rcases Nat.lt_or_ge j c with hlt | hge
-        · exact noWriteBetween_spec t y c P.hbetween j e (by omega) hlt he
-        · exact noWriteBetween_spec t c t.length P.hafter j e (by omega) h2 he
-      cases e <;> simp [Ev.isWrite] at hnw <;> simp [Ev.inHeader, Ev.isWrite]
-  -- length at y+1 = length at c (no writes in between) ≥ headerSize
-  have hyc : vol t c = vol t (y + 1) :=
-    vol_frame t (y + 1) c (by have := P.hy; omega) (by omega) (fun j e h1 h2 he =>
-      noWriteBetween_spec t y c P.hbetween j e (by omega) h2 he)
-  have hl : f.headerSize ≤ (vol t (y + 1)).len := by rw [← hyc]; exact P.hlen
+    · rcases Nat.lt_or_ge j c with hlt | hge
+      · exact onlyHeaderBetween_spec t y c _ P.hbetween j e (by omega) hlt he
+      · exact nonwrite_inHeader e _ (noWriteBetween_spec t c t.length P.hafter j e (by omega) h2 he)
+  have hl : f.headerSize ≤ (vol t (y + 1)).len := P.hlen
   have hfin := vol_frame_header t (y + 1) f.headerSize hl t.length (by have := P.hy; omega) (Nat.le_refl _)
     (fun j e h1 h2 he => hev j e h1 h2 he)
   intro k hk
@@ -208,20 +202,21 @@ theorem prefix_rejected (f : Fmt) (fin : Img) (n : Nat) (hn : n < fin.len) :
 
 /-- **The complete header becomes visible only after everything else is on stable storage**:
 under the protocol there is a commit event `c` and an earlier event `y` that syncs the whole
-file as it then is (so it covers every sector), with no write in between and none after `c`. -/
+file as it then is (so it covers every sector), with nothing but header bytes written in between
+and nothing after `c`. -/
 theorem header_last (f : Fmt) (t : Trace) (hc : conforms f t = true) :
     headerLast f t = true ∧
     ∃ c y, commitIdx f t = some c ∧ y < c ∧
       (∀ s, (t.getD y .close).covers (vol t (y + 1)).len s = true) ∧
-      (∀ j e, y < j → j < c → t[j]? = some e → e.isWrite = false) ∧
+      (∀ j e, y < j → j < c → t[j]? = some e → e.inHeader f.headerSize = true) ∧
       (∀ j e, c < j → j < t.length → t[j]? = some e → e.isWrite = false) := by
   obtain ⟨c, y, P⟩ := conforms_unpack f t hc
   refine ⟨?_, c, y, P.hc, P.hy, fun s => fullSync_covers _ _ s P.hsync,
-    noWriteBetween_spec t y c P.hbetween, noWriteBetween_spec t c t.length P.hafter⟩
+    onlyHeaderBetween_spec t y c _ P.hbetween, noWriteBetween_spec t c t.length P.hafter⟩
   unfold headerLast
   rw [P.hc]
   simp only [List.any_eq_true, List.mem_range, Bool.and_eq_true]
-  exact ⟨y, P.hy, P.hsync, P.hbetween⟩
+  exact ⟨y, P.hy, ⟨P.hsync, decide_eq_true P.hlen⟩, P.hbetween⟩
 
 /-! ### Non-vacuity and the two write methods in miniature
 A toy format with a 4-byte "Sanity" `[9,9,9,9]`, marker `[7,7]`, header size 8. -/
@@ -260,6 +255,22 @@ example : conforms toyFmt
     [.create, .truncate 12, .store 0 #[7, 7, 0, 0, 0, 0, 0, 0, 1, 2, 3, 4], .msync 0 12, .munmap,
      .pwrite 12 #[60, 117], .msync 0 12, .fsync,
      .store 0 #[9, 9, 9, 9, 5, 5, 5, 5], .msync 0 12, .munmap, .close] = true := by decide
+
+/-- `WriteHeader` traced store by store with the Sanity block LAST (the repaired order): the
+parameter stores lie between the full sync and the commit, inside the header — conforms. -/
+example : conforms toyFmt
+    [.create, .truncate 12, .store 0 #[7, 7, 0, 0, 0, 0, 0, 0, 1, 2, 3, 4], .msync 0 12,
+     .store 4 #[5, 5], .store 6 #[5, 5], .store 0 #[9, 9, 9, 9], .msync 0 12, .munmap, .close] = true := by decide
+
+/-- **Sanity block FIRST** (the order of the unchanged `WriteHeader`): the commit event precedes the
+parameter stores, so the protocol is violated ("nothing is written after the commit"), and the
+volatile image right after the Sanity store — a reachable process-kill image when writing
+through a shared mapping — loads although its parameters differ from the final file's. -/
+theorem sanity_first_not_conforming :
+    let t : Trace := [.create, .truncate 12, .store 0 #[7, 7, 0, 0, 0, 0, 0, 0, 1, 2, 3, 4], .msync 0 12,
+      .store 0 #[9, 9, 9, 9], .store 4 #[5, 5], .store 6 #[5, 5], .msync 0 12, .munmap, .close]
+    conforms toyFmt t = false ∧ loads toyFmt (vol t 5) = true ∧ (vol t 5).get 4 ≠ (final t).get 4 := by
+  decide
 
 /-- a writer that puts the complete header first does not conform -/
 example : conforms toyFmt
